@@ -23,15 +23,15 @@ import (
 
 // ParsedCP is an independent parse of a signed checkpoint.
 type ParsedCP struct {
-	Origin   string
-	N        int64
-	Root     Hash
-	ExtLines int
-	Ts       int64
-	OriginOK bool
-	SigOK    bool // RFC 6962 tree head signature verifies (independent verifier)
-	Signer   string
-	Cosig    bool // ML-DSA cosignature by the log's witness key verifies
+	Origin    string
+	N         int64
+	Root      Hash
+	ExtLines  int
+	Ts        int64
+	OriginOK  bool
+	SigOK     bool // RFC 6962 tree head signature verifies (independent verifier)
+	Signer    string
+	Cosig     bool // ML-DSA cosignature by the log's witness key verifies
 	Malformed bool
 }
 
